@@ -57,6 +57,7 @@ CONTRACTS = [
              requires=['len(input) >= 1'],
              loops={0: LoopSpec(invariant=SIMPLE_INV, types={'tokens': TOKLIST}, ghost={'own': Arr('int')})},
              ghost_after={'tokens.append(': 'own = fill(own, tokens[len(tokens) - 1].start, tokens[len(tokens) - 1].start + tokens[len(tokens) - 1].length, len(tokens) - 1)'},
+             native_ensures=['all(input[p].isspace() or any(t.start <= p and p < t.start + t.length for t in result) for p in range(len(input)))'],
              ensures=TOK_POST),
 ]
 CONTRACTS[-1].repair_strings = True
@@ -107,6 +108,7 @@ CONTRACTS += [
              requires=['len(input) >= 1'],
              loops={0: LoopSpec(invariant=NU_INV, types={'tokens': TOKLIST}, ghost={'own': Arr('int')})},
              ghost_after={'tokens.append(': 'own = fill(own, tokens[len(tokens) - 1].start, tokens[len(tokens) - 1].start + tokens[len(tokens) - 1].length, len(tokens) - 1)'},
+             native_ensures=['all(input[p].isspace() or any(t.start <= p and p < t.start + t.length for t in result) for p in range(len(input)))'],
              ensures=NU_POST),
 ]
 CONTRACTS[-1].repair_strings = True
@@ -168,4 +170,11 @@ CONTRACTS += [
              ensures=[('matches-of-the-listed-phrases-at-token-boundaries',
                        'match_spans(result) == [[(2, 4), (5, 1)], [(0, 3), (2, 1)], [(0, 1), (1, 1)], [(0, 2), (3, 2)]][k]')],
              note='BOUNDED stand-in (closed evaluation by the engine of the real init/insert/tokenize/find code on four queries)'),
+    Contract('c16.matcher.dict_form.bounded', M + 'string_matcher.py::StringMatcher.find', ['C16'], max_recursion=2, unroll=8,
+             bounded='two ids, three phrases of which one is listed under both ids, one concrete query',
+             params=dict(self=Expr('build_string_matcher({"UTC-06:00": ["cst"], "UTC+08:00": ["china time", "cst"]})'),
+                         tokenized_query=Const('at 5 cst, china time')),
+             ensures=[('a-phrase-listed-under-two-ids-reports-both',
+                       'match_spans(result) == [(5, 3), (10, 10)] and match_ids(result) == [["UTC+08:00", "UTC-06:00"], ["UTC+08:00"]]')],
+             note='BOUNDED stand-in: the {id: [phrases]} form of init, closed evaluation by the engine of the real init/insert/find code'),
 ]
